@@ -5848,7 +5848,23 @@ class Symbol:
 
             return BOOL_TO_STR[val]
 
-        if self.orig_type:  # STRING/INT/HEX
+        if self.orig_type:  # STRING/INT/HEX/FLOAT
+            # An active 'set default' takes precedence over the defaults, exactly as in str_value. Without
+            # this, a user value equal to the plain default was considered redundant and left out of the
+            # minimal configuration although loading that file yields the 'set default' value.
+            if self.weak_rev_values and expr_value(self.direct_dep):
+                for value, cond, _ in self.weak_rev_values:
+                    if expr_value(cond):
+                        if self.orig_type == STRING:
+                            weak_val = value.str_value
+                        elif self.orig_type == FLOAT:
+                            weak_val = _normalize_float(value.name) if is_float(value.name) else ""
+                        else:
+                            weak_val = value.name if _is_base_n(value.name, _TYPE_TO_BASE[self.orig_type]) else ""
+                        if weak_val:
+                            return weak_val
+                        break
+
             for default, cond in self.defaults:
                 if expr_value(cond):
                     return default.str_value
